@@ -134,7 +134,7 @@ def msgsig(log):
     t = re.sub(r'#\d+', '#N', t)
     t = re.sub(r'\d+', 'N', t)
     t = re.sub(r"'[^']*'", "'X'", t)
-    t = re.sub(r'/repo/\S*/', '', t)
+    t = re.sub(re.escape(common.REPO) + r'/\S*/', '', t)
     return re.sub(r'\s+', ' ', t).strip()[:70]
 
 
